@@ -437,6 +437,30 @@ func (l *Layout) PutFile(d int, f *File) error {
 	return nil
 }
 
+// PutFileInPlace writes a regular file's content over the existing entry (truncate and write: what an editor
+// or a shell redirection does), or creates it.
+func (l *Layout) PutFileInPlace(d int, f *File) error {
+	dir := l.Pool[d]
+	if !dir.Exists {
+		return fmt.Errorf("directory %s does not exist", dir.Name)
+	}
+	if _, isSub := dir.Subdirs[f.Name]; isSub {
+		return fmt.Errorf("%s is a subdirectory", f.Name)
+	}
+	if f.Link != "" || f.Kind == Fifo || f.Kind == Socket {
+		return l.PutFile(d, f)
+	}
+	p := filepath.Join(l.Path(d), f.Name)
+	if st, err := os.Lstat(p); err == nil && !st.Mode().IsRegular() {
+		_ = os.Remove(p)
+	}
+	if err := os.WriteFile(p, f.Data, 0o644); err != nil {
+		return err
+	}
+	dir.Files[f.Name] = f
+	return nil
+}
+
 // RemoveFile removes a file from pool directory d.
 func (l *Layout) RemoveFile(d int, name string) error {
 	if err := os.Remove(filepath.Join(l.Path(d), name)); err != nil {
